@@ -104,6 +104,9 @@ void check_problem(const char * nm, vf::Ctx & ctx, const F & f, const Opts & o, 
   // non-increasing cost up to the rounding error of evaluating f
   double worst = 0;
   for (size_t k = 0; k + 1 < r.cost.size(); ++k) worst = std::max(worst, r.cost[k + 1] - r.cost[k]);
+  bool finite = true;
+  for (double cv : r.cost) finite = finite && std::isfinite(cv);
+  ctx.require(n + ": every callback iterate has a finite cost (the start has one)", finite || !std::isfinite(r.cost.front()));
   ctx.le(n + ": cost non-increasing along the callback iterates", worst, 2 * E);
   ctx.le(n + ": never returns a point worse than its start", r.cost.back() - r.cost.front(), 2 * E);
   ctx.require(n + ": arguments finally hold the last callback iterate", same_bits(r.final_args, r.hist.back()));
@@ -548,6 +551,34 @@ void c09_boundary(vf::Tape & t, vf::Ctx & ctx)
   }
 }
 
+// ---- residual defined only on part of the parameter space: y = log(a + b t); a trial step that leaves the domain
+// has a NaN cost and must be rejected like any other step that does not decrease the cost
+struct LogFit
+{
+  Eigen::Matrix<double, 9, 1> y;
+  Eigen::Matrix<double, 9, 1> operator()(const Eigen::Vector2d & p) const
+  {
+    Eigen::Matrix<double, 9, 1> r;
+    for (int i = 0; i < 9; ++i) r(i) = std::log(p(0) + p(1) * 0.5 * i) - y(i);
+    return r;
+  }
+};
+void c09_partial_domain(vf::Tape & t, vf::Ctx & ctx)
+{
+  Opts o = gen_opts(t, ctx);
+  const double a = t.range(0.5, 3.0), b = t.range(0.5, 3.0);
+  LogFit f;
+  for (int i = 0; i < 9; ++i) f.y(i) = std::log(a + b * 0.5 * i);
+  // start inside the domain (a0 + 4 b0 > 0), often far from the solution so that the first nearly undamped step leaves it
+  const double a0 = t.lrange(0.5, 30.0);
+  const double b0 = t.choice(3) == 0 ? t.range(0.1, 3.0) : -a0 / 4 * t.range(0.05, 0.95);
+  const Eigen::Vector2d x0(a0, b0);
+  if (ctx.want_desc) ctx.desc << "log(a + b t) fit, truth (" << a << "," << b << ") start " << show(x0) << " " << o.str();
+  ctx.label(b0 < 0 ? "partial-domain:start-near-the-boundary" : "partial-domain:interior-start");
+  auto dist = [&](const std::vector<double> & x) { return std::max(std::abs(x[0] - a), std::abs(x[1] - b)); };
+  all_modes("partial-domain", t, ctx, f, o, 16 * kEps * std::max(1.0, f(x0).norm()), dist, false, x0);
+}
+
 struct Reg
 {
   Reg()
@@ -567,6 +598,7 @@ struct Reg
     add("align<SO3,analytic>", &c09_align_analytic, 0.8, 120);
     add("constant", &c09_constant, 0.3, 30);
     add("acceptance-boundary", &c09_boundary, 1.0, 24);
+    add("partial-domain<log-fit>", &c09_partial_domain, 0.8, 24);
 #endif
 #if VF_UNIT == 2 || VF_NUNITS < 3
     add("align<SE2>", &c09_align<SE2d, 2>, 1.0, 120);
